@@ -208,7 +208,13 @@ func GenerateDSN(utf8 bool, envelope Envelope, mtaInfo ReportingMTAInfo, rcptsIn
 	reportHeader.Add("Content-Type", "multipart/report; report-type=delivery-status; boundary="+partWriter.Boundary())
 	reportHeader.Add("MIME-Version", "1.0")
 	reportHeader.Add("Auto-Submitted", "auto-replied")
-	reportHeader.Add("To", envelope.To)
+	// The envelope address has no quoting, the header field needs it if the
+	// local-part has spaces or other special characters.
+	toHdr := envelope.To
+	if mbox, domain, err := address.Split(envelope.To); err == nil && domain != "" {
+		toHdr = address.QuoteMbox(mbox) + "@" + domain
+	}
+	reportHeader.Add("To", toHdr)
 	reportHeader.Add("From", envelope.From)
 	reportHeader.Add("Subject", "Undelivered Mail Returned to Sender")
 
